@@ -8,7 +8,7 @@ import sys
 import time
 from concurrent.futures import ThreadPoolExecutor
 
-VERIF = "/verif"
+VERIF = os.environ.get("VERIF_ROOT") or os.path.dirname(os.path.dirname(os.path.dirname(os.path.abspath(__file__))))
 SPEC = VERIF + "/spec"
 HARNESS = VERIF + "/harness"
 OUT = VERIF + "/out"
